@@ -132,7 +132,7 @@ func c15(run *ev.Run) int {
 	var total int64
 	parallel(12, len(cases)*reps, func(i int) {
 		c := cases[i%len(cases)]
-		if !run.Want(c.key()) {
+		if !run.Want(c.key()) || run.Saturated() {
 			return
 		}
 		atomic.AddInt64(&total, 1)
